@@ -7,8 +7,9 @@
   only rows = 1) goes through the one-state `linear_hash`.  The level loop is the AVX2 one (`hash`), i.e. `mtLevelG`.
 
   Shape of the argument
-    * `mt512_generic`, `mtb512_generic`, `mt_default_generic`, `mtb_default_generic` (by unfolding only): the generated
-      builders are the texts `mt512GenG LH2 LH1 H`, `mtb512GenG LH2 LH1 H` instantiated with the translated hashes they call;
+    * `mt512_generic`, `mtb512_generic`, `mt_default_generic`, `mtb_default_generic`: the generated builders EQUAL the
+      reference texts `mt512GenG LH2 LH1 H`, `mtb512GenG LH2 LH1 H` instantiated with the translated hashes they call
+      (extensionally, `gen_equiv` of Lemmas/BridgeEquiv.lean: e.g. the leaf loop may test `i + 1 >= num_rows` first);
       the wrappers call the AVX512 builders.
     * `PairHash LH2 leaf2`: what Lemmas/BridgeSponge.lean (`lh512GenG_spec`) proves about the translated `linear_hash_avx512`:
       8 output words = `leaf2 (the 2·size input words) size`, nothing else written.
@@ -21,6 +22,7 @@
 import GoldilocksVerif.Lemmas.BridgeMerkleBatch
 import GoldilocksVerif.Lemmas.BridgeMerkleAvx
 set_option linter.unusedVariables false
+set_option linter.unusedSimpArgs false
 
 namespace GoldilocksVerif
 open Model Gen.MerkleGen
@@ -138,16 +140,9 @@ theorem mt512_generic (fuel : Nat) (tree input : Region) (num_cols num_rows : Bi
     Pos_merkletree_avx512 fuel tree input num_cols num_rows nThreads dim =
       mt512GenG Gen.LinearHashGen.Pos_linear_hash_avx512 Gen.LinearHashGen.Pos_linear_hash Gen.PosAvx2.Pos_hash
         fuel tree input num_cols num_rows dim := by
-  have e1 : Pos_merkletree_avx512_loop1 =
-      mt512LeafG Gen.LinearHashGen.Pos_linear_hash_avx512 Gen.LinearHashGen.Pos_linear_hash := by
-    funext fuel input nc nr dim i st; rfl
-  have e2 : Pos_merkletree_avx512_loop2 = mtNodeG Gen.PosAvx2.Pos_hash := by
-    funext p ni i st; rfl
-  have e3 : Pos_merkletree_avx512_loop3 = mtLevelG Gen.PosAvx2.Pos_hash := by
-    funext st; unfold Pos_merkletree_avx512_loop3 mtLevelG; rw [e2]
-  unfold Pos_merkletree_avx512 mt512GenG
-  rw [e1, e3]
-  rfl
+  delta mt512GenG mtTailG mt512LeafG mtLevelG mtNodeG
+  delta_prefix "Gen.MerkleGen."
+  gen_equiv
 
 /-- the condition `i + 1 < num_rows` of the leaf loop, for i = 2·m -/
 theorem pair_cond (num_rows : BitVec 64) (R m : Nat) (hR : num_rows.toNat = R) (hlt : 2 * m + 1 < 2 ^ 64) :
@@ -311,20 +306,9 @@ theorem mtb512_generic (fuel : Nat) (tree input : Region) (num_cols num_rows bat
     Pos_merkletree_batch_avx512 fuel tree input num_cols num_rows batch_size nThreads dim =
       mtb512GenG Gen.LinearHashGen.Pos_linear_hash_avx512 Gen.LinearHashGen.Pos_linear_hash Gen.PosAvx2.Pos_hash
         fuel tree input num_cols num_rows batch_size dim := by
-  have e1 : Pos_merkletree_batch_avx512_loop1 = mtbInnerG Gen.LinearHashGen.Pos_linear_hash := by
-    funext fuel input nc bs dim nb nl i j st; rfl
-  have e2 : Pos_merkletree_batch_avx512_loop2 = mtb512InnerG Gen.LinearHashGen.Pos_linear_hash_avx512 := by
-    funext fuel input nc bs dim nb nl i j st; rfl
-  have e3 : Pos_merkletree_batch_avx512_loop3 =
-      mtb512LeafG Gen.LinearHashGen.Pos_linear_hash_avx512 Gen.LinearHashGen.Pos_linear_hash := by
-    funext fuel input nc nr bs dim nb nl i st; unfold Pos_merkletree_batch_avx512_loop3 mtb512LeafG; rw [e1, e2]
-  have e4 : Pos_merkletree_batch_avx512_loop4 = mtNodeG Gen.PosAvx2.Pos_hash := by
-    funext p ni i st; rfl
-  have e5 : Pos_merkletree_batch_avx512_loop5 = mtLevelG Gen.PosAvx2.Pos_hash := by
-    funext st; unfold Pos_merkletree_batch_avx512_loop5 mtLevelG; rw [e4]
-  unfold Pos_merkletree_batch_avx512 mtb512GenG
-  rw [e3, e5]
-  rfl
+  delta mtb512GenG mtTailG mtb512LeafG mtb512InnerG mtbInnerG mtLevelG mtNodeG nlastBV nbBV
+  delta_prefix "Gen.MerkleGen."
+  gen_equiv
 
 /-! ### the default wrappers -/
 
@@ -333,14 +317,16 @@ theorem mt_default_generic (fuel : Nat) (tree input : Region) (num_cols num_rows
     Pos_merkletree fuel tree input num_cols num_rows nThreads dim =
       Pos_merkletree_avx512 fuel tree input num_cols num_rows nThreads dim := by
   unfold Pos_merkletree
-  cases (Pos_merkletree_avx512 fuel tree input num_cols num_rows nThreads dim) <;> rfl
+  cases (Pos_merkletree_avx512 fuel tree input num_cols num_rows nThreads dim) <;>
+    simp only [Option.bind_some, Option.bind_none]
 
 theorem mtb_default_generic (fuel : Nat) (tree input : Region) (num_cols num_rows batch_size : BitVec 64) (nThreads : Int)
     (dim : BitVec 64) :
     Pos_merkletree_batch fuel tree input num_cols num_rows batch_size nThreads dim =
       Pos_merkletree_batch_avx512 fuel tree input num_cols num_rows batch_size nThreads dim := by
   unfold Pos_merkletree_batch
-  cases (Pos_merkletree_batch_avx512 fuel tree input num_cols num_rows batch_size nThreads dim) <;> rfl
+  cases (Pos_merkletree_batch_avx512 fuel tree input num_cols num_rows batch_size nThreads dim) <;>
+    simp only [Option.bind_some, Option.bind_none]
 
 /-! ### the leaf phase of `merkletree_batch_avx512` -/
 
